@@ -9,7 +9,7 @@ C15 generated programs:
   * destr.rej               : invocations that must be rejected (compiled one by one, emit=metadata).
 Requests: see lean/Driver/C15.lean.
 """
-import os, re, random, concurrent.futures
+import os, re, random, shutil, subprocess, concurrent.futures
 from vlib import core
 from vlib.progs import common
 from vlib.progs.c11 import elog_src, exit_stmt
@@ -17,25 +17,33 @@ from vlib.progs.c11 import elog_src, exit_stmt
 KINDS = ["brk", "cont", "ret", "lbrk", "lcont", "panic"]
 
 PRELUDE = """
-#![allow(unused, unreachable_code, non_camel_case_types)]
+#![allow(unused, unreachable_code, non_camel_case_types, non_snake_case)]
 use std::cell::Cell;
 %s
 use elog::E;
+fn STR_OF(idx: usize) -> String { format!("s{}", idx) }
 fn ids<const N: usize>(a: [E; N]) -> String {
     let v: Vec<u32> = a.into_iter().map(elog::take).collect();
     elog::ids(&v)
 }
 struct Inner { e: E, n: u8 }
-trait Obs { fn obs(self, out: &mut Vec<String>); }
-impl Obs for E { fn obs(self, out: &mut Vec<String>) { out.push(elog::take(self).to_string()); } }
-impl Obs for u32 { fn obs(self, out: &mut Vec<String>) { if self < 1000 { out.push("BADN".into()); } } }
-impl Obs for () { fn obs(self, out: &mut Vec<String>) {} }
-impl Obs for (E, E) { fn obs(self, out: &mut Vec<String>) { self.0.obs(out); self.1.obs(out); } }
-impl<const N: usize> Obs for [E; N] { fn obs(self, out: &mut Vec<String>) { for e in self { e.obs(out); } } }
-impl Obs for Inner { fn obs(self, out: &mut Vec<String>) { if self.n != 7 { out.push("BADS".into()); } self.e.obs(out); } }
+/// what a bound field shows: the ids it contains; plain-data fields show nothing unless their VALUE is not the
+/// one put into field `idx` (u8 100+i, u16 0x4200+i, u32 1000+i, u64 0x0807060504030200+i, String "s<i>" /
+/// empty in const items) — a read from a wrong offset or with a wrong width is flagged `BAD…`
+trait Obs { fn obs(self, idx: usize, out: &mut Vec<String>); }
+impl Obs for E { fn obs(self, idx: usize, out: &mut Vec<String>) { out.push(elog::take(self).to_string()); } }
+impl Obs for u32 { fn obs(self, idx: usize, out: &mut Vec<String>) { if self != 1000 + idx as u32 { out.push("BADN".into()); } } }
+impl Obs for u8 { fn obs(self, idx: usize, out: &mut Vec<String>) { if self != 100 + idx as u8 { out.push("BADO".into()); } } }
+impl Obs for u16 { fn obs(self, idx: usize, out: &mut Vec<String>) { if self != 0x4200 + idx as u16 { out.push("BADH".into()); } } }
+impl Obs for u64 { fn obs(self, idx: usize, out: &mut Vec<String>) { if self != 0x0807060504030200 + idx as u64 { out.push("BADQ".into()); } } }
+impl Obs for String { fn obs(self, idx: usize, out: &mut Vec<String>) { if self != STR_OF(idx) { out.push("BADT".into()); } } }
+impl Obs for () { fn obs(self, idx: usize, out: &mut Vec<String>) {} }
+impl Obs for (E, E) { fn obs(self, idx: usize, out: &mut Vec<String>) { self.0.obs(idx, out); self.1.obs(idx, out); } }
+impl<const N: usize> Obs for [E; N] { fn obs(self, idx: usize, out: &mut Vec<String>) { for e in self { e.obs(idx, out); } } }
+impl Obs for Inner { fn obs(self, idx: usize, out: &mut Vec<String>) { if self.n != 7 { out.push("BADS".into()); } self.e.obs(idx, out); } }
 fn show<T: Obs>(v: T, letter: char, idx: usize, vals: &mut Vec<String>) {
     let mut o = Vec::new();
-    v.obs(&mut o);
+    v.obs(idx, &mut o);
     vals.push(format!("{}{}:{}", letter, idx, o.join(",")));
 }
 /// `[a:x;b:y]` sorted by id
@@ -109,9 +117,18 @@ fn case_%d() -> String {
 # ------------------------------------------------------------------------------------------------
 # destructure!
 # ------------------------------------------------------------------------------------------------
-TYPES = {"e": ("E", "elog::new()", 1), "n": ("u32", "1000 + {i}", 0), "z": ("()", "()", 0),
+TYPES = {"e": ("E", "elog::new()", 1), "n": ("u32", "1000u32 + {i}", 0), "z": ("()", "()", 0),
          "p": ("(E, E)", "(elog::new(), elog::new())", 2), "a": ("[E; 2]", "[elog::new(), elog::new()]", 2),
-         "s": ("Inner", "Inner { e: elog::new(), n: 7 }", 1), "g": ("E", "elog::new()", 1)}
+         "s": ("Inner", "Inner { e: elog::new(), n: 7 }", 1), "g": ("E", "elog::new()", 1),
+         # plain data of alignment 1 / 2 / 8 and a String (alignment 8, with a destructor): in a `#[repr(packed)]`
+         # struct a `u8` in front puts the wider fields at MISALIGNED offsets
+         "o": ("u8", "100u8 + {i}", 0), "h": ("u16", "0x4200u16 + {i}", 0), "q": ("u64", "0x0807060504030200u64 + {i}", 0),
+         "t": ("String", "format!(\"s{i}\")", 0)}
+
+REPRS = {"packed": "#[repr(packed)] ", "bpacked": "#[repr(packed)] ", "cpacked": "#[repr(C, packed)] ",
+         "cbpacked": "#[repr(C, packed)] ", "packed2": "#[repr(packed(2))] "}
+TUPLE_SHAPES = ("tstruct", "packed", "cpacked", "packed2")
+BRACED_SHAPES = ("bstruct", "bstructr", "bpacked", "cbpacked")
 
 
 def fields_of(spec):
@@ -130,12 +147,12 @@ def struct_case(cid, shape, spec):
     if shape == "tuple":
         ctor = "(" + "".join(c + ", " for c in ctors) + ")"
         pat = lambda ps: "(" + "".join(p + ", " for p in ps) + ")"
-    elif shape in ("tstruct", "packed"):
-        decl = ("#[repr(packed)] " if shape == "packed" else "") + "struct %s(%s);" % (name, ", ".join(tys))
+    elif shape in TUPLE_SHAPES:
+        decl = REPRS.get(shape, "") + "struct %s(%s);" % (name, ", ".join(tys))
         ctor = "%s(%s)" % (name, ", ".join(ctors))
         pat = lambda ps: "%s(%s)" % (name, ", ".join(ps))
-    elif shape in ("bstruct", "bstructr", "bpacked"):
-        decl = ("#[repr(packed)] " if shape == "bpacked" else "") + "struct %s { %s }" % (name, ", ".join("a%d: %s" % (i, t) for i, t in enumerate(tys)))
+    elif shape in BRACED_SHAPES:
+        decl = REPRS.get(shape, "") + "struct %s { %s }" % (name, ", ".join("a%d: %s" % (i, t) for i, t in enumerate(tys)))
         ctor = "%s { %s }" % (name, ", ".join("a%d: %s" % (i, c) for i, c in enumerate(ctors)))
         if shape == "bstructr":
             listing = listing[::-1]
@@ -151,8 +168,8 @@ def struct_case(cid, shape, spec):
     shows = "".join("show(f%d, '%s', %d, &mut vals); " % (i, fs[i][0], i) for i in listing if fs[i][1] == "b")
     # the native oracle: ordinary destructuring `let`; packed structs cannot be destructured by pattern
     # when a field has a destructor, so they are moved out field by field
-    if shape in ("packed", "bpacked"):
-        acc = (lambda i: "val.%d" % i) if shape == "packed" else (lambda i: "val.a%d" % i)
+    if shape in REPRS:
+        acc = (lambda i: "val.%d" % i) if shape in TUPLE_SHAPES else (lambda i: "val.a%d" % i)
         native = "".join("let f%d = %s; " % (i, acc(i)) for i in listing if fs[i][1] == "b")
     else:
         native = "let %s = val;" % pat(ps)
@@ -283,6 +300,190 @@ def array_patterns(length):
     return [o if o else "-" for o in out]
 
 
+
+# ------------------------------------------------------------------------------------------------
+# packed structs with MISALIGNED fields: run time, compile time (const evaluation), Miri
+# ------------------------------------------------------------------------------------------------
+# a leading / interleaved u8 puts u16 / u32 / u64 / String / E fields at odd offsets
+MISALIGNED = ["oqooqt", "oqe", "ohonoqe", "eoq", "toqh", "onoe"]
+PACKED_SHAPES = ["packed", "bpacked", "cpacked", "cbpacked", "packed2"]
+CONST_TYPES = ["oqooqt", "ohonoq", "toq", "qo", "oq", "onz"]
+CONST_SHAPES = ["packed", "bpacked", "cpacked", "cbpacked", "packed2", "tstruct", "bstruct", "tuple"]
+
+CONST_PRELUDE = """
+#![allow(unused, unreachable_code, non_camel_case_types, non_snake_case)]
+trait Obs { fn obs(self, idx: usize, out: &mut Vec<String>); }
+impl Obs for u32 { fn obs(self, idx: usize, out: &mut Vec<String>) { if self != 1000 + idx as u32 { out.push("BADN".into()); } } }
+impl Obs for u8 { fn obs(self, idx: usize, out: &mut Vec<String>) { if self != 100 + idx as u8 { out.push("BADO".into()); } } }
+impl Obs for u16 { fn obs(self, idx: usize, out: &mut Vec<String>) { if self != 0x4200 + idx as u16 { out.push("BADH".into()); } } }
+impl Obs for u64 { fn obs(self, idx: usize, out: &mut Vec<String>) { if self != 0x0807060504030200 + idx as u64 { out.push("BADQ".into()); } } }
+impl Obs for String { fn obs(self, idx: usize, out: &mut Vec<String>) { if !self.is_empty() || self.capacity() != 0 { out.push("BADT".into()); } } }
+impl Obs for () { fn obs(self, idx: usize, out: &mut Vec<String>) {} }
+fn show<T: Obs>(v: T, letter: char, idx: usize, vals: &mut Vec<String>) {
+    let mut o = Vec::new();
+    v.obs(idx, &mut o);
+    vals.push(format!("{}{}:{}", letter, idx, o.join(",")));
+}
+"""
+
+
+def const_patterns(ts):
+    """all-bind and alternating patterns; a String cannot be dropped during const evaluation, so it is always bound"""
+    n = len(ts)
+    out = []
+    for ps in ("b" * n, ("bw" * n)[:n], ("wb" * n)[:n]):
+        ps = "".join("b" if t == "t" else p for t, p in zip(ts, ps))
+        if ps not in out:
+            out.append(ps)
+    return out
+
+
+def const_case(cid, shape, spec):
+    """destructure! evaluated at COMPILE TIME: even ids in the initialiser of a `const` item, odd ids in a
+    `const fn` called from one; the bound fields are the value of the const"""
+    fs = fields_of(spec)
+    n = len(fs)
+    name = "K%d" % cid
+    tys = [TYPES[t][0] for t, _ in fs]
+    ctors = ["String::new()" if t == "t" else TYPES[t][1].replace("{i}", str(i)) for i, (t, _) in enumerate(fs)]
+    ps = ["f%d" % i if p == "b" else "_" for i, (_, p) in enumerate(fs)]
+    decl = ""
+    if shape == "tuple":
+        ty = "(" + "".join(t + ", " for t in tys) + ")"
+        ctor = "(" + "".join(c + ", " for c in ctors) + ")"
+        pat = "(" + "".join(p + ", " for p in ps) + ")"
+    elif shape in TUPLE_SHAPES:
+        ty = name
+        decl = REPRS.get(shape, "") + "struct %s(%s);" % (name, ", ".join(tys))
+        ctor = "%s(%s)" % (name, ", ".join(ctors))
+        pat = "%s(%s)" % (name, ", ".join(ps))
+    else:
+        ty = name
+        decl = REPRS.get(shape, "") + "struct %s { %s }" % (name, ", ".join("a%d: %s" % (i, t) for i, t in enumerate(tys)))
+        ctor = "%s { %s }" % (name, ", ".join("a%d: %s" % (i, c) for i, c in enumerate(ctors)))
+        pat = "%s { %s }" % (name, ", ".join("a%d: %s" % (i, p) for i, p in enumerate(ps)))
+    bound = [i for i, (_, p) in enumerate(fs) if p == "b"]
+    rty = "(" + "".join(tys[i] + ", " for i in bound) + ")"
+    rval = "(" + "".join("f%d, " % i for i in bound) + ")"
+    if cid % 2 == 0:
+        item = "const C%d: %s = { let val = %s; konst::destructure!{ %s = val } %s };" % (cid, rty, ctor, pat, rval)
+    else:
+        item = ("const fn d%d(val: %s) -> %s { konst::destructure!{ %s = val } %s }\nconst C%d: %s = d%d(%s);"
+                % (cid, ty, rty, pat, rval, cid, rty, cid, ctor))
+    shows = "".join("show(f%d, '%s', %d, &mut vals); " % (i, fs[i][0], i) for i in bound)
+    return """
+%s
+%s
+fn case_%d() -> String {
+    let %s = C%d;
+    let mut vals: Vec<String> = Vec::new();
+    %s
+    format!("L=[]|vals=[{}]", vals.join(";"))
+}""" % (decl, item, cid, rval, cid, shows)
+
+
+def const_oracle(spec):
+    """accepted, and every bound field has the value that was put in (no ids: plain data)"""
+    fs = fields_of(spec)
+    return "L=[]|vals=[%s]" % ";".join("%s%d:" % (t, i) for i, (t, p) in enumerate(fs) if p == "b")
+
+
+CONST_MAIN = """
+fn main() {
+    let cases: &[fn() -> String] = &[%s];
+    for f in cases { println!("{}", f()); }
+}
+"""
+
+
+def const_rows(d, tier):
+    cases = []
+    for shape in CONST_SHAPES:
+        for ts in CONST_TYPES:
+            pss = const_patterns(ts)
+            if tier != "thorough" and shape in ("tstruct", "bstruct", "tuple"):
+                pss = pss[:1]
+            for ps in pss:
+                cases.append((shape, "".join(t + p for t, p in zip(ts, ps))))
+    src = CONST_PRELUDE
+    for i, (shape, spec) in enumerate(cases):
+        src += const_case(i, shape, spec)
+    src += CONST_MAIN % ", ".join("case_%d" % i for i in range(len(cases)))
+    p = os.path.join(d, "destr_const.rs")
+    open(p, "w").write(src)
+    rc, err = common.compile_one(p, os.path.join(d, "destr_const"))
+    res = None
+    if rc == 0:
+        rc2, out, err2 = common.run_bin(os.path.join(d, "destr_const"), [], timeout=60)
+        lines = out.rstrip("\n").split("\n")
+        if rc2 == 0 and len(lines) == len(cases):
+            res = lines
+    if res is None:
+        # the batch is rejected (or crashed): every case alone, so that the verdict is per request
+        def one(i):
+            shape, spec = cases[i]
+            q = os.path.join(d, "destr_const_%d.rs" % i)
+            open(q, "w").write(CONST_PRELUDE + const_case(i, shape, spec) + CONST_MAIN % ("case_%d" % i))
+            rc, err = common.compile_one(q, q[:-3])
+            if rc != 0:
+                m = re.search(r"error\[(E\d+)\]", err)
+                return "does-not-compile" + (":" + m.group(1) if m else "")
+            rc, out, err = common.run_bin(q[:-3], [], timeout=20)
+            return out.strip() if rc == 0 and out.strip() else "crash:%d" % rc
+        with concurrent.futures.ThreadPoolExecutor(max_workers=16) as ex:
+            res = list(ex.map(one, range(len(cases))))
+    return [("destr.const %s %s" % (shape, spec), r, const_oracle(spec), True) for (shape, spec), r in zip(cases, res)]
+
+
+def harness_konst_dep():
+    """the `konst = …` dependency line of the harness (so that Miri sees the same crate the harness is built against)"""
+    for line in open(os.path.join(core.HARNESS, "Cargo.toml")):
+        if line.startswith("konst"):
+            return line.strip()
+    raise RuntimeError("no konst dependency in harness/Cargo.toml")
+
+
+def miri_rows(d, cases, native, extra):
+    """thorough tier: the run-time packed-struct cases as one small program under `cargo +nightly miri run`.
+    A reported undefined behaviour (or an output that differs from the native run) is the implementation's
+    result; if Miri cannot be run at all the row is omitted and the reason recorded in the evidence."""
+    proj = os.path.join(core.BUILD, "miri_c15")
+    os.makedirs(os.path.join(proj, "src"), exist_ok=True)
+    src = PRELUDE % elog_src()
+    for i, (kind, a, b) in enumerate(cases):
+        src += struct_case(i, a, b)
+    src += MAIN % ", ".join("case_%d" % i for i in range(len(cases)))
+    open(os.path.join(proj, "src", "main.rs"), "w").write(src)
+    open(os.path.join(proj, "Cargo.toml"), "w").write(
+        "[package]\nname = \"kmiri_c15\"\nversion = \"0.1.0\"\nedition = \"2021\"\n\n[dependencies]\n%s\n\n[workspace]\n"
+        % harness_konst_dep())
+    lock = os.path.join(core.HARNESS, "Cargo.lock")
+    if os.path.exists(lock) and not os.path.exists(os.path.join(proj, "Cargo.lock")):
+        shutil.copy(lock, os.path.join(proj, "Cargo.lock"))
+    env = dict(core.ENV)
+    env["CARGO_TARGET_DIR"] = os.path.join(core.BUILD, "miri_target")
+    env["CARGO_NET_OFFLINE"] = "true"
+    # alignment is judged from the allocation's declared alignment (as const evaluation does), not from the
+    # address an allocation happens to get: a misaligned typed read of a packed field is reported every time
+    env["MIRIFLAGS"] = (env.get("MIRIFLAGS", "") + " -Zmiri-symbolic-alignment-check").strip()
+    try:
+        p = subprocess.run(["cargo", "+nightly", "miri", "run", "--offline", "--quiet", "--", "all"], cwd=proj, env=env,
+                           stdout=subprocess.PIPE, stderr=subprocess.PIPE, text=True, timeout=1500)
+    except (OSError, subprocess.TimeoutExpired) as e:
+        extra["miri"] = "not run: %s" % type(e).__name__
+        return []
+    m = re.search(r"error: Undefined Behavior: ([^\n]*)", p.stderr)
+    if m:
+        res = "UB: " + m.group(1).strip()[:160]
+    elif p.returncode != 0:
+        extra["miri"] = "not run: cargo miri exited %d: %s" % (p.returncode, p.stderr[-400:])
+        return []
+    else:
+        res = "clean" if p.stdout.rstrip("\n").split("\n") == native else "output-differs-from-native"
+    extra["miri"] = "cargo +nightly miri run: %d packed-struct destructure! cases, %s" % (len(cases), res)
+    return [("destr.miri packed_runtime", res, "clean", True)]
+
+
 REJECTS = {
     "tuple_dotdot": "let v = (E::mk(), E::mk()); konst::destructure!{ (a, ..) = v }",
     "struct_dotdot": "struct S { a: E, b: E } let v = S { a: E::mk(), b: E::mk() }; konst::destructure!{ S { a, .. } = v }",
@@ -364,6 +565,13 @@ def generate(ctx):
                 pss = pss[:3]
             for ps in pss:
                 cases.append(("s", shape, "".join(t + p for t, p in zip(tsx, ps))))
+    # packed structs whose wider fields sit at misaligned offsets (the reads must be `read_unaligned`)
+    packed_cases = []
+    for shape in PACKED_SHAPES:
+        for ts in MISALIGNED:
+            for ps in ("b" * len(ts), ("bw" * len(ts))[:len(ts)], ("wb" * len(ts))[:len(ts)]):
+                packed_cases.append(("s", shape, "".join(t + p for t, p in zip(ts, ps))))
+    cases += packed_cases
     for shape in ("tuple", "bstruct"):
         cases.append(("s", shape, "-"))
     # tuples of every arity 1..16 with a random pattern
@@ -390,6 +598,7 @@ def generate(ctx):
         open(p, "w").write(src)
         jobs.append((p, os.path.join(d, "destr_%d" % ci), "link"))
     res = common.compile_many(jobs)
+    native_lines = {}
     for ci, (chunk, (rc, err)) in enumerate(zip(chunks, res)):
         if rc != 0:
             raise RuntimeError("C15 destructure program %d does not compile: %s" % (ci, err[-2500:]))
@@ -398,6 +607,7 @@ def generate(ctx):
         if rc != 0 or len(lines) != len(chunk):
             raise RuntimeError("C15 destructure program %d failed: rc=%s %s" % (ci, rc, err[-500:]))
         for (kind, a, b), line in zip(chunk, lines):
+            native_lines[(kind, a, b)] = line
             parts = line.split("\t")
             if len(parts) != 3:
                 parts = [line, line, "?"]
@@ -408,6 +618,14 @@ def generate(ctx):
             else:
                 rows.append(("destr.fin array:%d %s" % (a, b), fin_k, fin_n, True))
                 rows.append(("destr.imm array:%d %s" % (a, b), imm, imm_doc_array(a, b), True))
+
+    # ---- destructure! at compile time (const items / const fns), packed structs included --------
+    rows += const_rows(d, tier)
+
+    # ---- thorough: the run-time packed cases under Miri ---------------------------------------
+    if tier == "thorough" and os.environ.get("VERIF_NO_MIRI") != "1":
+        pc = list(dict.fromkeys(packed_cases))
+        rows += miri_rows(d, pc, [native_lines[c] for c in pc], ctx.get("extra", {}))
 
     # ---- destructure!: rejected forms ---------------------------------------------------------
     jobs, names = [], []
